@@ -2,6 +2,7 @@ package sio
 
 import (
 	"reflect"
+	"unsafe"
 
 	"github.com/karagenc/socket.io-go/internal/sync"
 
@@ -331,25 +332,54 @@ func (e *handlerStore[T]) off(handler ...T) {
 		return
 	}
 
-	remove := func(slice []T, s int) []T {
-		return append(slice[:s], slice[s+1:]...)
-	}
-
-	for i, h := range e.funcs {
-		for _, _h := range handler {
-			if h == _h {
-				e.funcs = remove(e.funcs, i)
+	// Filter into a fresh slice. Removing in place while ranging over the
+	// slice skips elements and slices past the end.
+	keep := func(slice []T) []T {
+		kept := make([]T, 0, len(slice))
+		for _, h := range slice {
+			remove := false
+			for _, _h := range handler {
+				if sameHandler(h, _h) {
+					remove = true
+					break
+				}
+			}
+			if !remove {
+				kept = append(kept, h)
 			}
 		}
+		return kept
 	}
+	e.funcs = keep(e.funcs)
+	e.funcsOnce = keep(e.funcsOnce)
+}
 
-	for i, h := range e.funcsOnce {
-		for _, _h := range handler {
-			if h == _h {
-				e.funcsOnce = remove(e.funcsOnce, i)
-			}
-		}
+// Handlers are stored as pointers to function values. The `Off` methods
+// receive the function again, so its address differs from the stored one.
+// In that case compare the functions themselves.
+func sameHandler[T comparable](a, b T) bool {
+	if a == b {
+		return true
 	}
+	va, vb := reflect.ValueOf(a), reflect.ValueOf(b)
+	if va.Kind() != reflect.Pointer || vb.Kind() != reflect.Pointer || va.IsNil() || vb.IsNil() {
+		return false
+	}
+	va, vb = va.Elem(), vb.Elem()
+	if va.Kind() != reflect.Func || vb.Kind() != reflect.Func || va.IsNil() || vb.IsNil() {
+		return false
+	}
+	return funcID(va) == funcID(vb)
+}
+
+// Identity of a function value: the address of its closure object.
+// Unlike the code pointer (reflect.Value.Pointer), this tells apart
+// closures that were created from the same function literal.
+func funcID(rv reflect.Value) unsafe.Pointer {
+	f := rv.Interface()
+	// A function value is pointer-shaped, so it is stored
+	// directly in the data word of the interface.
+	return (*[2]unsafe.Pointer)(unsafe.Pointer(&f))[1]
 }
 
 func (e *handlerStore[T]) offAll() {
@@ -409,27 +439,34 @@ func (e *eventHandlerStore) off(eventName string, handler ...reflect.Value) {
 	e.mu.Lock()
 	defer e.mu.Unlock()
 
-	if handler == nil {
+	if len(handler) == 0 {
 		delete(e.events, eventName)
 		delete(e.eventsOnce, eventName)
 		return
 	}
 
-	remove := func(slice []*eventHandler, s int) []*eventHandler {
-		return append(slice[:s], slice[s+1:]...)
+	// Filter into a fresh slice. Removing in place while ranging over the
+	// slice skips elements and slices past the end.
+	keep := func(slice []*eventHandler) []*eventHandler {
+		kept := make([]*eventHandler, 0, len(slice))
+		for _, event := range slice {
+			remove := false
+			for _, h := range handler {
+				if h.Kind() == reflect.Func && !h.IsNil() && funcID(event.rv) == funcID(h) {
+					remove = true
+					break
+				}
+			}
+			if !remove {
+				kept = append(kept, event)
+			}
+		}
+		return kept
 	}
 
 	events, ok := e.events[eventName]
 	if ok {
-		for i, event := range events {
-			for _, h := range handler {
-				ep := event.rv.Pointer()
-				hp := h.Pointer()
-				if ep == hp {
-					events = remove(events, i)
-				}
-			}
-		}
+		events = keep(events)
 		if len(events) == 0 {
 			delete(e.events, eventName)
 		} else {
@@ -439,15 +476,7 @@ func (e *eventHandlerStore) off(eventName string, handler ...reflect.Value) {
 
 	eventsOnce, ok := e.eventsOnce[eventName]
 	if ok {
-		for i, event := range eventsOnce {
-			for _, h := range handler {
-				ep := event.rv.Pointer()
-				hp := h.Pointer()
-				if ep == hp {
-					eventsOnce = remove(eventsOnce, i)
-				}
-			}
-		}
+		eventsOnce = keep(eventsOnce)
 		if len(eventsOnce) == 0 {
 			delete(e.eventsOnce, eventName)
 		} else {
